@@ -11,15 +11,22 @@ use vh::sim::world::{EnvConfig, IoEvent, Outcome, World};
 fn deliver(ch: u16, tag: &str, dtag: u64) -> AMQPFrame {
     AMQPFrame::Method(ch, AMQPClass::Basic(basic::AMQPMethod::Deliver(basic::Deliver { consumer_tag: tag.into(), delivery_tag: dtag, redelivered: dtag % 2 == 0, exchange: format!("ex{}", dtag), routing_key: format!("rk{}", dtag) })))
 }
+fn props_of(with_props: bool) -> AmqpProperties {
+    if with_props {
+        AmqpProperties::default().with_message_id("m-1".into()).with_delivery_mode(2).with_content_type("text/x".into()).with_priority(3).with_timestamp(77).with_app_id("app".into())
+    } else {
+        AmqpProperties::default()
+    }
+}
 fn header(ch: u16, size: u64, with_props: bool) -> AMQPFrame {
-    let p = if with_props { AmqpProperties::default().with_message_id("m-1".into()).with_delivery_mode(2) } else { AmqpProperties::default() };
+    let p = props_of(with_props);
     AMQPFrame::Header(ch, 60, Box::new(AMQPContentHeader { class_id: 60, weight: 0, body_size: size, properties: p }))
 }
 fn body(ch: u16, b: &[u8]) -> AMQPFrame {
     AMQPFrame::Body(ch, b.to_vec())
 }
 fn show_delivery(d: &amiquip::Delivery) -> String {
-    format!("tag={} red={} ex={} rk={} body={:?} mid={:?}", d.delivery_tag(), d.redelivered, d.exchange, d.routing_key, d.body, d.properties.message_id())
+    format!("tag={} red={} ex={} rk={} body={:?} props={:?}", d.delivery_tag(), d.redelivered, d.exchange, d.routing_key, d.body, d.properties)
 }
 
 /// Push a list of frames one by one, in order (each offered only after the previous one).
@@ -88,6 +95,9 @@ impl Scenario for Inbound {
         }
         f1.push(deliver(1, "ctag-1-3", 12));
         f1.push(header(1, 0, false));
+        // a second message for the consumer nobody reads
+        f1.push(deliver(1, "ctag-1-2", 13));
+        f1.push(header(1, 0, true));
         f1.push(AMQPFrame::Method(1, AMQPClass::Basic(basic::AMQPMethod::Return(basic::Return { reply_code: 312, reply_text: "NO_ROUTE".into(), exchange: "rex".into(), routing_key: "rrk".into() }))));
         f1.push(header(1, 1, true));
         f1.push(body(1, &[7]));
@@ -126,7 +136,7 @@ impl Scenario for Inbound {
                         }
                     }
                     match ctx.recv("returns", &returns) {
-                        Ok(r) => ctx.log(format!("return {} {} ex={} rk={} body={:?} mid={:?}", r.reply_code, r.reply_text, r.exchange, r.routing_key, r.content, r.properties.message_id())),
+                        Ok(r) => ctx.log(format!("return {} {} ex={} rk={} body={:?} props={:?}", r.reply_code, r.reply_text, r.exchange, r.routing_key, r.content, r.properties)),
                         Err(_) => ctx.log("return listener disconnected"),
                     }
                     match ch.basic_get("gq", true) {
@@ -142,6 +152,8 @@ impl Scenario for Inbound {
                         }
                     }
                     ctx.log(format!("lazy count {}", n));
+                    // exactly once: nothing else is waiting in the queues that were read
+                    ctx.log(format!("extra consumer={} returns={}", c.receiver().try_iter().count(), returns.try_iter().count()));
                     std::mem::forget(lazy);
                     std::mem::forget(c);
                     let r = ch.close();
@@ -154,6 +166,7 @@ impl Scenario for Inbound {
                         Ok(ConsumerMessage::Delivery(d)) => ctx.log(format!("delivery {}", show_delivery(&d))),
                         other => ctx.log(format!("unexpected {:?}", other.map(|m| consumer_msg_name(&m)))),
                     }
+                    ctx.log(format!("extra consumer={}", c.receiver().try_iter().count()));
                     std::mem::forget(c);
                     let r = ch.close();
                     ctx.log(format!("chclose -> {}", res(&r)));
@@ -167,16 +180,19 @@ impl Scenario for Inbound {
     }
     fn check(&self, _p: &Value, o: &Outcome, _w: &World) -> Vec<(String, String)> {
         let mut v = Vec::new();
+        let (pt, pf) = (format!("{:?}", props_of(true)), format!("{:?}", props_of(false)));
         let want_a = vec![
-            "delivery tag=11 red=false ex=ex11 rk=rk11 body=[1, 2, 3] mid=Some(\"m-1\")".to_string(),
-            "delivery tag=12 red=true ex=ex12 rk=rk12 body=[] mid=None".to_string(),
-            "return 312 NO_ROUTE ex=rex rk=rrk body=[7] mid=Some(\"m-1\")".to_string(),
-            "get count=104 tag=1004 red=false ex=gx rk=gk body=[9, 9] mid=None".to_string(),
-            "lazy tag=10 red=true ex=ex10 rk=rk10 body=[5, 5] mid=None".to_string(),
-            "lazy count 1".to_string(),
+            format!("delivery tag=11 red=false ex=ex11 rk=rk11 body=[1, 2, 3] props={}", pt),
+            format!("delivery tag=12 red=true ex=ex12 rk=rk12 body=[] props={}", pf),
+            format!("return 312 NO_ROUTE ex=rex rk=rrk body=[7] props={}", pt),
+            format!("get count=104 tag=1004 red=false ex=gx rk=gk body=[9, 9] props={}", pf),
+            format!("lazy tag=10 red=true ex=ex10 rk=rk10 body=[5, 5] props={}", pf),
+            format!("lazy tag=13 red=false ex=ex13 rk=rk13 body=[] props={}", pt),
+            "lazy count 2".to_string(),
+            "extra consumer=0 returns=0".to_string(),
             "chclose -> Ok".to_string(),
         ];
-        let want_b = vec!["delivery tag=21 red=false ex=ex21 rk=rk21 body=[8] mid=None".to_string(), "chclose -> Ok".to_string()];
+        let want_b = vec![format!("delivery tag=21 red=false ex=ex21 rk=rk21 body=[8] props={}", pf), "extra consumer=0".to_string(), "chclose -> Ok".to_string()];
         let a = o.logs.get("a").cloned().unwrap_or_default();
         let b = o.logs.get("b").cloned().unwrap_or_default();
         if a != want_a {
@@ -376,7 +392,9 @@ impl Scenario for ConsumerLife {
             "cancel-twice" | "drop" | "cancel-held" | "server-cancel" => 1,
             _ => 0,
         };
-        if cancels != want_cancels {
+        // (whether a cancel of a consumer the server has already cancelled still goes to the
+        // server is not something the statement settles)
+        if cancels != want_cancels && !(how == "server-cancel" && cancels == 0) {
             v.push(("consumer:cancel-frames".into(), format!("{}: {} Basic.Cancel frames written, expected {}", how, cancels, want_cancels)));
         }
         let srv_cancel_seen = o.io_events.iter().any(|e| matches!(e, IoEvent::Frame(AMQPFrame::Method(1, AMQPClass::Basic(basic::AMQPMethod::Cancel(_))))));
@@ -657,7 +675,7 @@ impl Scenario for Listeners {
                         let got2: Vec<String> = l2.try_iter().map(show).collect();
                         ctx.log(format!("L2 {:?}", got2));
                     }
-                    let rets: Vec<String> = r1.try_iter().map(|r| format!("{} {} ex={} rk={} body={:?} mid={:?}", r.reply_code, r.reply_text, r.exchange, r.routing_key, r.content, r.properties.message_id())).collect();
+                    let rets: Vec<String> = r1.try_iter().map(|r| format!("{} {} ex={} rk={} body={:?} props={:?}", r.reply_code, r.reply_text, r.exchange, r.routing_key, r.content, r.properties)).collect();
                     ctx.log(format!("R1 {:?}", rets));
                     let r = ch.close();
                     ctx.log(format!("chclose -> {}", res(&r)));
@@ -720,6 +738,36 @@ impl Scenario for Listeners {
             v.push(("listeners:replaced-not-disconnected".into(), l1.clone()));
         }
         let drop_second = p["drop_second"] == true;
+        // exact reference from the I/O thread's own log: a confirm goes to the listener whose
+        // registration the I/O thread had taken last
+        {
+            let mut regs = 0usize;
+            let mut want_c: Vec<Vec<String>> = vec![vec![], vec![], vec![]];
+            let mut before_qos = [0usize; 3];
+            for e in &o.io_events {
+                match e {
+                    IoEvent::Recv { msg: amiquip::verif::MsgKind::SetPubConfirmHandler { .. }, .. } => regs += 1,
+                    IoEvent::Frame(AMQPFrame::Method(1, AMQPClass::Basic(basic::AMQPMethod::Ack(x)))) => want_c[regs.min(2)].push(format!("Ack({},{})", x.delivery_tag, x.multiple)),
+                    IoEvent::Frame(AMQPFrame::Method(1, AMQPClass::Basic(basic::AMQPMethod::Nack(x)))) => want_c[regs.min(2)].push(format!("Nack({},{})", x.delivery_tag, x.multiple)),
+                    IoEvent::Frame(AMQPFrame::Method(1, AMQPClass::Basic(basic::AMQPMethod::QosOk(_)))) => {
+                        for i in 0..3 {
+                            before_qos[i] = want_c[i].len();
+                        }
+                    }
+                    _ => {}
+                }
+            }
+            if !want_c[0].is_empty() {
+                v.push(("listeners:confirm-before-listener".into(), format!("scenario error: confirms {:?} before any listener", want_c[0])));
+            }
+            // the first listener was replaced before the RPC: its share is complete
+            if g1 != want_c[1] {
+                v.push(("listeners:confirms-first-listener".into(), format!("first listener received {:?}; while it was the channel's listener the server's confirms were {:?}", g1, want_c[1])));
+            }
+            if !drop_second && (g2.len() < before_qos[2] || g2.len() > want_c[2].len() || g2[..] != want_c[2][..g2.len()]) {
+                v.push(("listeners:confirms-second-listener".into(), format!("second listener received {:?}; while it was the channel's listener the server's confirms were {:?} ({} of them before the RPC reply)", g2, want_c[2], before_qos[2])));
+            }
+        }
         let mut all = g1.clone();
         all.extend(g2.clone());
         // the listeners were read right after the RPC returned: everything the server sent
@@ -737,7 +785,7 @@ impl Scenario for Listeners {
             v.push(("listeners:confirms".into(), format!("first listener received {:?}; the server's confirms were {:?}", g1, confirms)));
         }
         let r1 = parse("R1 ", &a).unwrap_or_default();
-        let full = "R1 [\"313 NO_CONSUMERS ex=x rk=k body=[4, 2] mid=Some(\\\"m-1\\\")\"]";
+        let full = format!("R1 {:?}", vec![format!("313 NO_CONSUMERS ex=x rk=k body=[4, 2] props={:?}", props_of(true))]);
         let r_ok = if returns_before_qos > 0 { r1 == full } else if returns > 0 { r1 == full || r1 == "R1 []" } else { r1 == "R1 []" };
         if !r_ok {
             v.push(("listeners:returns".into(), format!("{} (returned messages handled before the RPC reply: {}, in total: {})", r1, returns_before_qos, returns)));
@@ -793,12 +841,14 @@ fn violation_frames(kind: &str) -> (Vec<AMQPFrame>, Vec<&'static str>, Option<u1
         "body-overrun" => (vec![deliver(1, "ctag-1-2", 1), header(1, 1, false), body(1, &[1, 2])], vec!["Err(FrameUnexpected)"], None),
         "method-mid-content" => (vec![deliver(1, "ctag-1-2", 1), deliver(1, "ctag-1-2", 2)], vec!["Err(FrameUnexpected)"], None),
         "unopened-channel" => (ok1(AMQPFrame::Method(5, AMQPClass::Basic(basic::AMQPMethod::QosOk(basic::QosOk {})))), vec!["Err(ReceivedFrameWithBogusChannelId(5))"], None),
-        "content-on-channel0" => (ok1(header(0, 1, false)), vec!["Err(ClientException)"], Some(530)),
+        // (which error content on channel 0 produces is the client's choice: see the check)
+        "content-on-channel0" => (ok1(header(0, 1, false)), vec!["Err(ClientException)", "Err(FrameUnexpected)", "Err(ReceivedFrameWithBogusChannelId(0))"], Some(530)),
         "unknown-tag" => (vec![deliver(1, "nobody", 1), header(1, 0, false)], vec!["Err(UnknownConsumerTag(1,nobody))"], None),
         "duplicate-tag" => (ok1(AMQPFrame::Method(1, AMQPClass::Basic(basic::AMQPMethod::ConsumeOk(basic::ConsumeOk { consumer_tag: "ctag-1-2".into() })))), vec!["Err(DuplicateConsumerTag(1,ctag-1-2))"], None),
         "client-only-method" => (ok1(AMQPFrame::Method(1, AMQPClass::Basic(basic::AMQPMethod::Publish(basic::Publish { ticket: 0, exchange: "".into(), routing_key: "".into(), mandatory: false, immediate: false })))), vec!["Err(ClientException)"], Some(530)),
         "unimplemented-class" => (ok1(AMQPFrame::Method(1, AMQPClass::Tx(tx::AMQPMethod::CommitOk(tx::CommitOk {})))), vec!["Err(ClientException)"], Some(540)),
-        "huge-body-size" => (vec![deliver(1, "ctag-1-2", 1), header(1, 1 << 62, false), body(1, &[1])], vec!["Ok"], None),
+        // any announced size: no panic, no abort, no delivery; waiting for the rest or refusing are both fine
+        "huge-body-size" => (vec![deliver(1, "ctag-1-2", 1), header(1, 1 << 62, false), body(1, &[1])], vec!["Ok", "Err(FrameUnexpected)"], None),
         _ => panic!(),
     }
 }
@@ -880,13 +930,13 @@ impl Scenario for Violations {
             }
         }
         let msgs: Vec<&String> = main.iter().filter(|l| l.starts_with("consumer <- Delivery")).collect();
-        if msgs.len() != 1 || !msgs[0].contains("tag=50") {
+        if msgs.len() != 1 || *msgs[0] != "consumer <- Delivery(tag=50,body=[6])" {
             v.push(("violations:mis-delivered".into(), format!("{}: consumer saw {:?}, expected only the valid delivery 50", kind, msgs)));
         }
-        if let Some(code) = code {
+        if let (Some(code), true) = (code, main.iter().any(|l| l == "close -> Err(ClientException)")) {
             let (envs, _) = wire_frames(o);
             let ok = match envs.last().and_then(|e| e.decode()) {
-                Some(AMQPFrame::Method(0, AMQPClass::Connection(pconnection::AMQPMethod::Close(c)))) => c.reply_code == code,
+                Some(AMQPFrame::Method(0, AMQPClass::Connection(pconnection::AMQPMethod::Close(c)))) => c.reply_code == code || (kind == "content-on-channel0" && [503u16, 504, 505].contains(&c.reply_code)),
                 _ => false,
             };
             if !ok {
